@@ -4,6 +4,9 @@ import (
 	"fmt"
 	"strconv"
 	"strings"
+	"time"
+
+	"github.com/lrstanley/girc"
 )
 
 // C16 timing: a serial, lock-step sender on a real connection; every observed hold is checked against the
@@ -170,7 +173,60 @@ func s2withCollect(s *Session, n int) *Session {
 	return s
 }
 
-func init() { runners["ratescenario"] = rateScenario; runners["joinburst"] = joinBurst }
+// rateReconnect: flood protection is a property of the configuration, not of one connection: after the first connection was
+// ended (by Quit, by Close, by the server) the same client connects again and a burst beyond the allowance is held as before.
+func rateReconnect(c *Ctx, in map[string]string) {
+	hin := hexIn(in)
+	cl := girc.New(girc.Config{Server: "irc.example.org", Port: 6667, Nick: "me", User: "me", Name: "me"}) // AllowFlood off
+	d1, err := newDispClientFor(cl)
+	if err != nil {
+		c.R.Mismatch("ratereconnect.setup", hin, err.Error(), "")
+		return
+	}
+	switch in["end"] {
+	case "quit":
+		cl.Quit("bye")
+	case "close":
+		cl.Close()
+	default:
+		d1.srv.Close()
+	}
+	select {
+	case <-d1.ret:
+	case <-time.After(5 * time.Second):
+		c.R.Mismatch("ratereconnect.setup", hin, "the first connection did not end", "")
+		d1.srv.Close()
+		return
+	}
+	d1.srv.Close()
+	d2, err := newDispClientFor(cl)
+	if err != nil {
+		c.R.Mismatch("ratereconnect.setup", hin, "second connection: "+err.Error(), "")
+		return
+	}
+	defer func() { go d2.close() }()
+	// four messages of about 300 bytes: 4 s each against an allowance of 8 s: the third is held for about 4 s
+	text := strings.Repeat("x", 280)
+	t0 := time.Now()
+	var third time.Duration
+	for i := 0; i < 3; i++ {
+		ti := time.Now()
+		cl.Cmd.Message("#chan", fmt.Sprintf("%d %s", i, text))
+		third = time.Since(ti)
+	}
+	total := time.Since(t0)
+	if third < 2500*time.Millisecond {
+		c.R.Violation("rate.not_held_after_reconnect", hin, fmt.Sprintf("third 300-byte message held %d ms (all three: %d ms)", third.Milliseconds(), total.Milliseconds()), ">= 2500 ms (cost 1 s + 10 ms/byte each, allowance 8 s)",
+			"on a later connection of the same client (flood protection configured on) a burst beyond the allowance was not held")
+	}
+	c.R.Count("ratereconnect/"+in["end"], true, "timing-reconnect")
+}
+
+func init() {
+	runners["ratescenario"] = rateScenario
+	runners["joinburst"] = joinBurst
+	runners["ratereconnect"] = rateReconnect
+}
 
 func runC16Timing(c *Ctx) {
 	r := c.R
@@ -190,6 +246,14 @@ func runC16Timing(c *Ctx) {
 	}
 	c.run("joinburst", map[string]string{"joins": "11"})
 	r.Traces++
+	ends := []string{"quit", "close", "drop"}
+	if c.Tier != "thorough" {
+		ends = []string{"quit", []string{"close", "drop"}[int(c.R.Seed)%2]}
+	}
+	for _, end := range ends {
+		c.run("ratereconnect", map[string]string{"end": end})
+		r.Traces++
+	}
 	for _, in := range scen {
 		c.run("ratescenario", in)
 		r.Count("rate:"+in["kinds"]+in["allowflood"], true, "timing-scenario")
